@@ -1,2 +1,70 @@
-From AV Require Import Base Utf8 Json Codec Conn.
-Theorem C01_placeholder : True. Proof. exact I. Qed.
+(* C01 - A response completes exactly the request that caused it.
+   Model: model/Conn.v (jsonrpc.py:578-749).  Histories = arbitrary lists of send_request,
+   send_batch, receive_message(bytes), cancel_pending_requests on any protocol class. *)
+From Coq Require Import Permutation Sorted.
+From AV Require Import Base Utf8 Json Gen_jsonrpc Codec Conn ConnProofs.
+
+(* ids outstanding at the same time are pairwise distinct (and below the counter), in every
+   reachable state *)
+Theorem C01_fresh_ids : forall p ops, Fresh (fold_left apply_op ops (new_conn p)).
+Proof. exact fresh_ids. Qed.
+
+(* a response resolves exactly the entry its id names - Python identifies 1, 1.0 and True -
+   removes it and leaves every other entry alone; any other id (unknown, replayed, string, null,
+   unhashable) is a ProtocolError and the table is untouched *)
+Theorem C01_recv_exact : forall c v rid,
+  match classify_id rid with
+  | INum z =>
+      if (0 <=? z)%Z && has_key (KOne (Z.to_N z)) c
+      then receive_response c v rid =
+             (RCompleted (KOne (Z.to_N z)) [v],
+              set_reqs c (remove_key (KOne (Z.to_N z)) (reqs c)) (next_id c) (cproto c))
+      else receive_response c v rid = (RProtoErr INVALID_REQUEST None, c)
+  | _ => receive_response c v rid = (RProtoErr INVALID_REQUEST None, c)
+  end.
+Proof. exact recv_exact. Qed.
+
+Theorem C01_others_untouched : forall k k' l, In k' (remove_key k l) <-> In k' l /\ k' <> k.
+Proof. exact remove_key_In. Qed.
+
+(* whatever arrives, the table changes by at most the removal of the one completed key *)
+Theorem C01_receive_effect : forall c msg,
+  let '(o, c') := receive_message c msg in
+  next_id c' = next_id c /\
+  ((reqs c' = reqs c /\ forall k vs, o <> RCompleted k vs) \/
+   (exists k vs, has_key k c = true /\ o = RCompleted k vs /\ reqs c' = remove_key k (reqs c))).
+Proof. exact receive_effect. Qed.
+
+(* along any history no awaitable is completed twice *)
+Theorem C01_resolved_once : forall p ops, NoDup (completions (new_conn p) ops).
+Proof. exact resolved_once. Qed.
+
+(* a batch yields one outcome per request member in the order the members were added, for
+   EVERY permutation of the response members *)
+Theorem C01_batch_order : forall rs rs',
+  int_ids rs -> NoDup (map idz rs) -> Permutation rs rs' ->
+  StronglySorted (fun a b => (idz a < idz b)%Z) rs ->
+  exists l, sort_pairs rs' = Some l /\ map snd l = rs.
+Proof. exact batch_order. Qed.
+
+(* connection loss: every outstanding awaitable is released and the table emptied *)
+Theorem C01_cancel_all : forall c, fst (cancel_all c) = reqs c /\ reqs (snd (cancel_all c)) = [].
+Proof. exact cancel_all_releases. Qed.
+
+Example C01_ex :
+  let c0 := new_conn (Some V2) in
+  let c1 := snd (send_request c0 [109]%N (JArr [])) in
+  let c2 := snd (send_batch c1 [([97]%N, JArr [], true); ([98]%N, JArr [], false); ([99]%N, JArr [], true)]) in
+  reqs c2 = [KOne 0; KMany [1; 2]]%N /\
+  fst (receive_message c2 (print (JArr [response_payload V2 (JInt 20) (JFloat [50; 46; 48]%N);
+                                         response_payload V2 (JInt 10) (JInt 1)])))
+  = RCompleted (KMany [1; 2]%N) [inl (RResult (JInt 10)); inl (RResult (JInt 20))].
+Proof. vm_compute. split; reflexivity. Qed.
+
+Print Assumptions C01_fresh_ids.
+Print Assumptions C01_recv_exact.
+Print Assumptions C01_others_untouched.
+Print Assumptions C01_receive_effect.
+Print Assumptions C01_resolved_once.
+Print Assumptions C01_batch_order.
+Print Assumptions C01_cancel_all.
